@@ -203,7 +203,13 @@ def run_idtoken(ctx):
         if rng.random() < 0.2:
             look = rng.choice([("123", 123), ("1.5", 1.5), ("True", True), ("None", None), ("foo", [102, 111, 111]), ("1", True), ("1", 1), ("0", 0), ("['cid']", ["cid"]),
                                ("cid", ["c", "i", "d"]), ("{}", {}), ("[]", [])])
-            where = rng.choice(["nonce", "client_id:aud", "client_id:azp", "sub", "iss"])
+            where = rng.choice(["nonce", "client_id:aud", "client_id:azp", "sub", "iss", "client-contained"])
+            if where == "client-contained":
+                # the expected client is a proper part of the single textual audience (or the other way round)
+                full = rng.choice(["cid", "client-10", "https://rp.example/app"])
+                part = rng.choice([full[:-1], full[1:], full[1:-1], full + "0", full[:1]])
+                params["client_id"], claims["aud"] = rng.choice([(part, full), (part, [full]), (full, part)])
+                claims.pop("azp", None)
             if where == "nonce":
                 params["nonce"], claims["nonce"] = look
             elif where == "client_id:aud":
